@@ -425,4 +425,95 @@ theorem lambdaOf_sum_eq {na : List Bool} {rows : List (List Rat × List Rat)}
   rw [e1, e2]
   exact scale_parts_sum s (le_of_lt hs) n limit hsn v
 
+/-! ### the estimator trained at one grid point -/
+
+theorem eraseDups_length_one {l : List Nat} (h : l.eraseDups.length = 1) : ∀ x ∈ l, x = l.headD 0 := by
+  cases l with
+  | nil => simp at h
+  | cons a as =>
+    rw [List.eraseDups_cons] at h
+    simp only [List.length_cons, Nat.add_eq_right, List.length_eq_zero_iff] at h
+    have hf : as.filter (fun b => !b == a) = [] := by
+      cases hfl : as.filter (fun b => !b == a) with
+      | nil => rfl
+      | cons b bs => rw [hfl, List.eraseDups_cons] at h; simp at h
+    intro x hx
+    simp only [List.headD_cons]
+    rcases List.mem_cons.mp hx with rfl | hx
+    · rfl
+    · by_contra hne
+      have : x ∈ as.filter (fun b => !b == a) := by
+        simp [List.mem_filter, hx, hne]
+      rw [hf] at this; simp at this
+
+theorem weighted01_nonneg : ∀ (data : List (Nat × Rat)) (h : List Nat), (∀ p ∈ data, 0 ≤ p.2) →
+    0 ≤ weighted01 data h
+  | [], _, _ => by simp [weighted01]
+  | _ :: _, [], _ => by simp [weighted01]
+  | (y, w) :: data, a :: h, hw => by
+    simp only [weighted01]
+    have := weighted01_nonneg data h (fun p hp => hw p (by simp [hp]))
+    have hw0 : 0 ≤ w := hw (y, w) (by simp)
+    split <;> linarith
+
+theorem weighted01_const (c : Nat) : ∀ (data : List (Nat × Rat)), (∀ p ∈ data, p.1 = c) →
+    weighted01 data (data.map (fun _ => c)) = 0
+  | [], _ => by simp [weighted01]
+  | (y, w) :: data, hc => by
+    have hy : y = c := hc (y, w) (by simp)
+    simp only [List.map_cons, weighted01, hy, if_true, zero_add]
+    exact weighted01_const c data (fun p hp => hc p (by simp [hp]))
+
+theorem relabel_weights_nonneg (w : List Rat) : ∀ p ∈ relabel w, 0 ≤ p.2 := by
+  intro p hp
+  rw [relabel_def] at hp
+  obtain ⟨x, _, rfl⟩ := List.mem_map.mp hp
+  simp only
+  split <;> linarith
+
+/-- The estimator trained at a grid point (constant DummyClassifier on single-label data, else an exact
+    cost-sensitive learner over the class `H`) minimises the weighted 0/1 error over `H`. -/
+theorem trainAt_minimises (learner : List (Nat × Rat) → List Nat) (H : List Nat → Prop) (w : List Rat)
+    (hex : ∀ h' , H h' → weighted01 (relabel w) (learner (relabel w)) ≤ weighted01 (relabel w) h') :
+    ∀ h', H h' → weighted01 (relabel w) (trainAt learner (relabel w)) ≤ weighted01 (relabel w) h' := by
+  intro h' hh'
+  unfold trainAt
+  split
+  · next hd =>
+    simp only [GridSrc.useDummy, nUnique] at hd
+    have hone : ((relabel w).map (·.1)).eraseDups.length = 1 := by
+      have := of_decide_eq_true hd
+      exact_mod_cast this
+    have hall := eraseDups_length_one hone
+    rw [weighted01_const _ (relabel w) (fun p hp => hall p.1 (List.mem_map.mpr ⟨p, hp, rfl⟩))]
+    exact weighted01_nonneg _ _ (relabel_weights_nonneg w)
+  · exact hex h' hh'
+
+theorem relabel_length (w : List Rat) : (relabel w).length = w.length := by simp [relabel_def]
+
+theorem relabel_labels_binary (w : List Rat) : ∀ p ∈ relabel w, p.1 = 0 ∨ p.1 = 1 := by
+  intro p hp
+  rw [relabel_def] at hp
+  obtain ⟨x, _, rfl⟩ := List.mem_map.mp hp
+  simp only
+  split <;> simp
+
+/-- shape of the trained labeling: one 0/1 label per row (given that the base learner returns such labelings) -/
+theorem trainAt_shape (learner : List (Nat × Rat) → List Nat) (w : List Rat)
+    (hs : (learner (relabel w)).length = w.length ∧ ∀ x ∈ learner (relabel w), x = 0 ∨ x = 1) :
+    (trainAt learner (relabel w)).length = w.length ∧ ∀ x ∈ trainAt learner (relabel w), x = 0 ∨ x = 1 := by
+  unfold trainAt
+  split
+  · refine ⟨by simp [relabel_length], ?_⟩
+    intro x hx
+    obtain ⟨_, _, rfl⟩ := List.mem_map.mp hx
+    cases hl : (relabel w).map (·.1) with
+    | nil => simp
+    | cons a as =>
+      simp only [List.headD_cons]
+      have : a ∈ (relabel w).map (·.1) := by rw [hl]; simp
+      obtain ⟨p, hp, rfl⟩ := List.mem_map.mp this
+      exact relabel_labels_binary w p hp
+  · exact hs
+
 end Grid
